@@ -263,6 +263,16 @@ def check_rdkit(n, btype, nmodels, c0):
     back = rd.from_mol(mol, add_hydrogen=False)
     if back.stack_depth() != nmodels:
         return f"{back.stack_depth()} models back"
+    # coordination bonds: RDKit can express them as dative bonds when asked to (documented option); otherwise they become
+    # single bonds (documented loss)
+    if n >= 2:
+        coord_atoms = atoms.copy()
+        coord_atoms.bonds = struc.BondList(n, np.array([[i, i + 1, int(struc.BondType.COORDINATION) if i == 0 else 1] for i in range(n - 1)], dtype=np.int64).reshape(-1, 3))
+        for flag, want_t in ((True, int(struc.BondType.COORDINATION)), (False, int(struc.BondType.SINGLE))):
+            bk = rd.from_mol(rd.to_mol(coord_atoms, use_dative_bonds=flag), add_hydrogen=False)
+            got_t = {(int(i), int(j)): int(t) for i, j, t in bk.bonds.as_array()}.get((0, 1))
+            if got_t != want_t:
+                return f"coordination bond through the bridge with use_dative_bonds={flag}: came back as bond type {got_t}, expected {want_t}"
     # documented: the models become conformers with IDs counting from 0, and each of them can be asked for by its ID
     ids = [c.GetId() for c in mol.GetConformers()]
     if ids != list(range(nmodels)):
